@@ -19,6 +19,14 @@ CHECKS = {
   text="Round-trip oracle against the input: for generated well-framed streams with arbitrary/corrupted word-structured payloads, every error message's leading offset must be an RDH start or word start of the independently walked chain, quoted 10-byte dumps must equal the input bytes at that offset, `current :` RDH rows must equal an independent decode, frame messages must end on a TDT; all five check modes, all filter kinds, muted and unmuted, stderr and statistics file.",
   note="Trusted base: independent chain walker and word-offset arithmetic; domain restricted (by the statement) to payload layouts that agree with the header's data format.",
   technique="property-based testing: round-trip oracle (re-read the input at the reported offset) over generated and mutated streams"),
+ "C16": dict(
+  text="Contract oracle over generated command lines and inputs: all invalid option combinations (enumerated) must be rejected with non-zero exit, empty stdout and no file created; unreadable/unrecognisable inputs exit non-zero without crashing; for processed inputs (clean / erroneous / mid-stream fatal, five modes, -E n, custom checks) exit = n iff anything was reported, total_errors = listed + custom = messages shown, and -m / -w / -e change only what is displayed (-w exactness checked with codes that are prefixes and extensions of present codes).",
+  note="Trusted base: stderr/stats/report parsers of the harness; the exit-status oracle relates observables of the same run, with the classes clean / wrong custom check known by construction.",
+  technique="property-based testing: reference contract + metamorphic relations between runs with and without display options"),
+ "C18": dict(
+  text="Differential truncation testing: generated (conforming and corrupted) multi-link streams are cut at structure-derived and random positions (thorough: every byte position of small streams); the truncated run must terminate normally and its findings (error messages / view rows) for all complete packets before the cut must equal those of the untruncated run; check and view modes, file and pipe, with and without filter.",
+  note="Trusted base: the untruncated run is the reference; runs whose full input triggers a FATAL stop are excluded (stop point is schedule dependent by design) and counted.",
+  technique="property-based testing: metamorphic relation truncated-vs-full over generated cut positions (exhaustive over small inputs in the thorough tier)"),
  "C04": dict(
   text="Generated-input search for crashes and hangs: structure-aware mutations of conforming streams, random bytes, well-framed arbitrary streams and edited repository files, each under a random valid command line, on the real release CLI; oracle = terminates by itself, no panic/abort/signal, exit in {0,1,n}. Confirmed findings are keyed by panic site and recorded, so the search continues behind them.",
   note="Trusted base: watchdog rule (a hang needs 3 x 60 s confirmation); only option combinations accepted by clap/validate_args; debug assertions are off as in the shipped binary.",
